@@ -43,6 +43,7 @@ var pScalarKinds = []string{"double", "float", "int32", "int64", "uint32", "uint
 
 // map key kinds of the supported subset (C07..C10: map<int*|uint*|string, ...>); the full list is used where a property says "every key kind"
 var pKeyKinds = []string{"int32", "int64", "uint32", "uint64", "string", "string"}
+var pIntStrKeyKinds = []string{"int32", "int64", "uint32", "uint64", "sint32", "sint64", "fixed32", "fixed64", "sfixed32", "sfixed64", "string", "string", "string"}
 var pAllKeyKinds = []string{"int32", "int64", "uint32", "uint64", "sint32", "sint64", "fixed32", "fixed64", "sfixed32", "sfixed64", "bool", "string"}
 
 func printProto(s PSchema) string {
